@@ -197,6 +197,7 @@ class xRFM:
         if split_temperature is not None and split_temperature < 0:
             raise ValueError("split_temperature must be positive when specified.")
         self.split_temperature = split_temperature
+        self._configured_split_temperature = split_temperature
 
         if temp_tuning_space is None:
             temp_tuning_space = DEFAULT_TEMP_TUNING_SPACE
@@ -930,6 +931,10 @@ class xRFM:
             self.extra_rfm_params_ = dict()
 
         self.data_dim = X.shape[1]
+
+        if self.use_temperature_tuning:
+            # tuning starts from the configured temperature, not from the one selected by an earlier fit
+            self.split_temperature = getattr(self, '_configured_split_temperature', self.split_temperature)
 
         # Build multiple trees
         self.trees = []
